@@ -4,7 +4,7 @@ From Coq Require Import List ZArith Bool.
 From Coq.Strings Require Import Byte.
 Import ListNotations.
 From SV Require Import Text G_tab C11_Model C11_Lemmas C11_TextLemmas C11_FileLemmas C11_Examples C11_IntLemmas C11_RenderLemmas
-  C11_SelectLemmas C11_BlocksLemmas C11_Examples2 C11_AnyLemmas C11_TableLemmas C11_Examples3 C11_FloatLemmas.
+  C11_SelectLemmas C11_BlocksLemmas C11_Examples2 C11_AnyLemmas C11_TableLemmas C11_Examples3 C11_FloatLemmas C11_FloatSound C11_DiscoverLemmas.
 Local Open Scope Z_scope.
 
 (* P0 orientation: the decision of core.py:313-335 is the sign rule; in particular every accepted row spans
@@ -691,3 +691,88 @@ Example C11_witness_float :
   py_float (bs " -.5e+3 "%bs) = Some (FNum true 5 2) /\ py_float (bs "1e"%bs) = None /\ py_float (bs "."%bs) = None /\
   is_word (bs "InFiNiTy"%bs) = Some true /\ py_float (bs "-NaN"%bs) = Some FNan /\ py_float (unhex (bs "371f"%bs)) = None.
 Proof. exact witness_float. Qed.
+
+(* the converse: whatever the modelled float() accepts is a text of the grammar with blanks around it, read as its value, or a
+   signed word; float_shape v x = v is such a text and x its value. Hence float() is exactly that relation, and everything
+   else (no digit in the mantissa, an exponent mark without digits, two points, inner blanks, '_', other characters) is
+   rejected and stays a string in the format metadata *)
+Theorem C11_float_sound : forall v x, py_float v = Some x -> float_shape v x.
+Proof. exact float_sound. Qed.
+Print Assumptions C11_float_sound.
+
+Theorem C11_float_rejects : forall v, (forall x, ~ float_shape v x) -> py_float v = None /\ conv TFloat v = AStr v.
+Proof. exact (fun v H => conj (float_rejects v H) (proj2 (proj2 (proj2 (proj2 (conv_meaning v)))) (float_rejects v H))). Qed.
+Print Assumptions C11_float_rejects.
+
+Theorem C11_float_iff : forall v x, py_float v = Some x <-> float_shape v x.
+Proof. exact float_iff. Qed.
+Print Assumptions C11_float_iff.
+
+(* non-vacuity for free text: titles / descriptions holding the separators and markers of the other layouts *)
+Example C11_witness_freetext :
+  row_ok Blast x09 (ex3_free_row ex3_title_tab) = true /\ row_ok Blast ","%byte (ex3_free_row ex3_title_comma) = true /\
+  match row_feature Blast None ex3_free_hs (ex3_free_row ex3_title_tab) with
+  | Ok f => assoc (bs "stitle"%bs) (f_fmt f) = Some (AStr ex3_title_tab) /\ (f_start f, f_stop f, f_strand f) = (1999, 2075, bs "-"%bs)
+  | Err _ => False
+  end /\
+  locs (snd (read_content Blast (Some ","%byte) (Some (bs "qseqid sseqid stitle qstart qend sstart send evalue bitscore"%bs)) None false
+               (unlines [join ","%byte (ex3_free_row ex3_title_comma)]))) = Some [(1999, 2075, bs "-"%bs)] /\
+  edge_ok ("a"%byte :: x09 :: x09 :: bs "b  -- #c"%bs) = true.
+Proof. exact witness_freetext. Qed.
+
+(* read(text) = spec(H) for ANY text whose data lines carry the hits H: nothing is assumed about the comment / blank / name-row
+   lines around them, about line ends or about the end of the file (outfmt= for BLAST and MMseqs2; anything after the ruler
+   for Infernal). row_carries holds for every rendered hit row (C11_hit_row_carries, C11_default_rows_carry) *)
+Theorem C11_read_any_outfmt_hits : forall d sep o ftype univ hs content hits,
+  (match d with Infernal => false | _ => true end) = true -> headers_from false d (split_ws o) = Ok hs ->
+  Forall2 (row_carries d hs) (map (line_toks sep None) (filter (data_line d sep) (content_lines univ content))) hits ->
+  exists fs, snd (read_content d sep (Some o) ftype univ content) = Ok fs /\ map loc_meta fs = map spec_loc_meta hits.
+Proof. exact read_any_outfmt_hits. Qed.
+Print Assumptions C11_read_any_outfmt_hits.
+
+Theorem C11_read_infernal_any_hits : forall sep outfmt ftype n hs ruler pre tail hits,
+  ruler_ok n ruler = true -> infernal_headers n = Ok hs -> forallb (skip_line Infernal true true) pre = true ->
+  Forall2 (row_carries Infernal hs) (map (line_toks None (Some (Nat.pred n))) (filter (data_line Infernal None) (lines_keep tail))) hits ->
+  exists fs, snd (read_content Infernal sep outfmt ftype false (unlines (pre ++ [ruler]) ++ tail)) = Ok fs /\
+             map loc_meta fs = map spec_loc_meta hits.
+Proof. exact read_infernal_any_hits. Qed.
+Print Assumptions C11_read_infernal_any_hits.
+
+(* ---- round 7: ANY text read WITHOUT outfmt= (BLAST, MMseqs2): header discovery ----
+   any_features d sep ftype cur ls: cur = the columns in force (None = none yet). A '# Fields:' line (BLAST) always replaces
+   them by the columns it names; '#' and blank lines are skipped; an MMseqs2 name row sets the columns if none are in force
+   and is skipped otherwise; every other line is read with the columns in force (the defaults if none), first error wins. *)
+Theorem C11_read_any_discover : forall d sep ftype univ content, (match d with Infernal => false | _ => true end) = true ->
+  snd (read_content d sep None ftype univ content) = any_features d sep ftype None (content_lines univ content).
+Proof. exact read_any_discover. Qed.
+Print Assumptions C11_read_any_discover.
+
+(* every data line after a '# Fields:' line is read with ITS columns, whatever was in force before: the blocks of a
+   multi-query / concatenated BLAST 7 file never inherit columns from an earlier block *)
+Theorem C11_fields_line_resets : forall sep ftype cur l r hs, starts_with (bs "# Fields:"%bs) l = true -> fields_of l = Ok hs ->
+  any_features Blast sep ftype cur (l :: r) = any_features Blast sep ftype (Some hs) r.
+Proof. exact fields_line_resets. Qed.
+Print Assumptions C11_fields_line_resets.
+
+(* ... and a stretch of lines without header lines is read with the columns in force, then the rest goes on *)
+Theorem C11_any_features_block : forall d sep ftype a cur b,
+  forallb (fun l => negb (match d with Blast => starts_with (bs "# Fields:"%bs) l | _ => false end) && negb (names_row d sep l)) a = true ->
+  forall hs, cur = Some hs ->
+  any_features d sep ftype cur (a ++ b) =
+  match lines_features d ftype hs sep None a with
+  | Ok fa => match any_features d sep ftype cur b with Ok fb => Ok (fa ++ fb) | Err e => Err e end
+  | Err e => Err e
+  end.
+Proof. exact any_features_app. Qed.
+Print Assumptions C11_any_features_block.
+
+Example C11_witness_discover :
+  match snd (read_content Blast (Some x09) None None false (unlines ex4_lines)) with
+  | Ok [f1; f2] => (f_start f1, f_stop f1, f_strand f1) = (4999%Z, 5089%Z, bs "-"%bs) /\
+                   (f_start f2, f_stop f2, f_strand f2) = (249%Z, 309%Z, bs "+"%bs) /\
+                   assoc (bs "seqid"%bs) (f_common f2) = Some (AStr (bs "chr7"%bs)) /\
+                   assoc (bs "name"%bs) (f_common f2) = Some (AStr (bs "q2"%bs))
+  | _ => False
+  end /\
+  (exists hs, fields_of ex4_fields = Ok hs).
+Proof. exact witness_discover. Qed.
